@@ -226,6 +226,59 @@ theorem refines_flipF {m m' : Cqm} (h : RefInv m) (v : Label) (hstep : m.step (.
     rw [hm', abs_unmarkDiscreteWith_eq hM hL (v := v) hgl, habs, linFlags_mapSubstitute]
     rfl
 
+/-- the function is TOTAL: it is an error exactly when the call raises (unknown label, INTEGER or REAL variable), and a call that
+    raises leaves the model as it was -/
+theorem flipF_none_iff {m : Cqm} (h : RefInv m) (v : Label) :
+    ((absCqm m).flipF (linFlags m) v = none ↔ (m.step (.flipVariable v)).2 ≠ none)
+    ∧ ((m.step (.flipVariable v)).2 ≠ none → (m.step (.flipVariable v)).1 = m) := by
+  have hstep : m.step (.flipVariable v) = m.flipVariableR v := rfl
+  constructor
+  · constructor
+    · intro hn hok
+      have := refines_flipF h v (Prod.ext rfl hok)
+      rw [hn] at this; cases this
+    · intro hne
+      rw [hstep] at hne
+      unfold Cqm.flipVariableR at hne
+      unfold LCqm.flipF
+      cases hg : m.idx? v with
+      | none =>
+        have : (absCqm m).info v = none := by
+          show (findIdx v m.labels 0).map _ = none
+          have : findIdx v m.labels 0 = none := hg
+          rw [this]; rfl
+        rw [this]
+      | some g =>
+        rw [hg] at hne
+        simp only [] at hne
+        have hgl := idx?_get hg
+        have hgv : g < m.vt.length := by
+          rw [← h.wf.labels_len]; exact (List.getElem?_eq_some_iff.mp hgl).1
+        have hinfo : (absCqm m).info v = some (m.vt.getD g .binary, m.lb.getD g 0, m.ub.getD g 0) := by
+          show (findIdx v m.labels 0).map _ = _
+          rw [(findIdx_eq_some_iff h.lab.labels_nodup).mpr hgl]; rfl
+        have hvt : m.vt.getD g .binary = m.vt.getD g .integer := by
+          rw [List.getD_eq_getElem?_getD, List.getD_eq_getElem?_getD, List.getElem?_eq_getElem hgv]; rfl
+        rw [hinfo, hvt]
+        cases hk : m.vt.getD g .integer with
+        | spin => rw [hk] at hne; exact absurd rfl hne
+        | binary => rw [hk] at hne; exact absurd rfl hne
+        | integer => rfl
+        | real => rfl
+  · intro hne
+    rw [hstep] at hne ⊢
+    unfold Cqm.flipVariableR at hne ⊢
+    cases hg : m.idx? v with
+    | none => rfl
+    | some g =>
+      rw [hg] at hne
+      simp only [] at hne ⊢
+      cases hk : m.vt.getD g .integer with
+      | spin => rw [hk] at hne; exact absurd rfl hne
+      | binary => rw [hk] at hne; exact absurd rfl hne
+      | integer => rfl
+      | real => rfl
+
 /-- the specification step for EVERY operation as a function of the list of polynomials and the `is_linear()` flags -/
 def specStepObs (s : LCqm) (lin : List Bool) : Op → Option LCqm
   | .flipVariable v => s.flipF lin v
